@@ -71,6 +71,20 @@ def schema_of(tr, A, nnum):
         return list(getattr(tr, "_schema")[0])
 
 
+def _same_numbers(got, want):
+    """exact equality of the NUMBERS (a float64 image of a 64-bit integer is another number beyond 2^53)"""
+    got, want = numpy.asarray(got), numpy.asarray(want)
+    if got.shape != want.shape:
+        return False
+    if want.dtype.kind in "iu":
+        try:
+            g = got.tolist()
+            return all((not isinstance(v, float)) or v.is_integer() for v in g) and [int(v) for v in g] == [int(v) for v in want.tolist()]
+        except (TypeError, ValueError, OverflowError):
+            return False
+    return bool(numpy.array_equal(got, want))
+
+
 def observe(cats, remove, skip, frame_rows, ncat, nnum, kind="str"):
     from mlinsights.mlmodel import CategoriesToIntegers
     KIND[0] = kind
@@ -125,7 +139,7 @@ def observe(cats, remove, skip, frame_rows, ncat, nnum, kind="str"):
         out["res"] = [[int(q) for q in numpy.where(M[r] == 1.0)[0]] for r in range(M.shape[0])]
         out["others_nan"] = bool(ok_cols and numpy.all(numpy.isnan(M) | (M == 1.0)))
         out["numeric_ok"] = bool(ok_cols and all(
-            numpy.array_equal(R["n%d" % (c + 1)].to_numpy(), B0["n%d" % (c + 1)].to_numpy()) for c in range(nnum)))
+            _same_numbers(R["n%d" % (c + 1)].to_numpy(), B0["n%d" % (c + 1)].to_numpy()) for c in range(nnum)))
         out["index_ok"] = bool(list(R.index) == idx and len(R) == len(frame_rows))
     if not B.equals(B0):
         out["numeric_ok"] = False
@@ -153,7 +167,7 @@ def observe(cats, remove, skip, frame_rows, ncat, nnum, kind="str"):
             codes.append(row)
         out["single"] = codes
         out["single_rest_ok"] = bool(list(S.columns) == list(B0.columns) and list(S.index) == idx and all(
-            numpy.array_equal(S["n%d" % (c + 1)].to_numpy(), B0["n%d" % (c + 1)].to_numpy()) for c in range(nnum)))
+            _same_numbers(S["n%d" % (c + 1)].to_numpy(), B0["n%d" % (c + 1)].to_numpy()) for c in range(nnum)))
     except Exception:
         out["single_outcome"] = "raise"
     return out
